@@ -66,9 +66,16 @@ def check_tables_not_mutated(ctx, rule):
     ctx.floor(rule, n, 5, "table-taking functions")
 
 
-def initial_value_on_path(ctx, rule_c, rule_d, it, p, q, f, cname, tag, present, absent):
+def initial_value_on_path(ctx, rule_c, rule_d, it, p, q, f, cname, tag, present, absent, rule_b=None):
     """m_i == m_scaled_func(p_i) through a raising interpolator over (pressure, m-scaled); with a user alpha the
     m-scaled column is pseudopressure * interp(pressure, 1/pseudopressure)(p_i).  Returns the m-scaled store events."""
+    stores = [e for e in p.events if e.kind == "store_sub" and isinstance(e.data["index"], StrV) and e.data["index"].s == "alpha"]
+    if stores:
+        ctx.check(
+            "alpha" in absent or cname == "FlowPropertiesSimple", rule_b or rule_c, q + ":user alpha honoured" + tag, f"{f.file}:{stores[0].line}",
+            "the 'alpha' column is computed only on a path that established that the caller supplied none (a user-supplied diffusivity is never replaced)",
+            signature="alpha overwritten", decisions=[d for _k, _c, d in p.decisions],
+        )
     mi = [e for e in p.events if e.kind == "store_attr" and e.data["attr"] == "m_i"]
     okm = False
     found = ""
@@ -154,13 +161,6 @@ def check(ctx):
                 "every column read from the caller's table on this path is guaranteed present by the validation that admitted the path",
                 signature="unvalidated " + ",".join(extra), unvalidated=extra, read=sorted(reads),
             )
-            stores = [e for e in p.events if e.kind == "store_sub" and isinstance(e.data["index"], StrV) and e.data["index"].s == "alpha"]
-            if stores:
-                ctx.check(
-                    "alpha" in absent or cname == "FlowPropertiesSimple", "C09-b", q + ":user alpha honoured" + tag, f"{f.file}:{stores[0].line}",
-                    "the 'alpha' column is computed only on a path that established that the caller supplied none",
-                    signature="alpha overwritten", decisions=[d for _k, _c, d in p.decisions],
-                )
             # ---- C09-c interpolators evaluated at p_i raise outside the table; m_i comes from one
             calls = [e for e in p.events if e.kind == "extobj_call" and len(e.data["args"]) == 1 and it.to_nf(e.data["args"][0]) == nf.sym("p_i")]
             for e in calls:
@@ -174,7 +174,7 @@ def check(ctx):
                     "an interpolator evaluated at the initial pressure raises ValueError when p_i is outside the table (no bounds_error=False / fill_value)",
                     signature="lenient lookup at p_i " + ",".join(bad), options=sorted(o.args),
                 )
-            ms = initial_value_on_path(ctx, "C09-c", "C09-d", it, p, q, f, cname, tag, present, absent)
+            ms = initial_value_on_path(ctx, "C09-c", "C09-d", it, p, q, f, cname, tag, present, absent, rule_b="C09-b")
             # ---- C09-e alpha at nodes
             for e in [e for e in p.events if e.kind == "store_sub" and isinstance(e.data["index"], StrV) and e.data["index"].s == "alpha"]:
                 ctx.identity("C09-e", q + ":alpha column" + tag, f"{f.file}:{e.line}", "node diffusivity == 1 / (compressibility * viscosity)", it.to_nf(e.data["value"]), nf.div(nf.ONE, nf.mul(col("compressibility"), col("viscosity"))))
